@@ -702,6 +702,15 @@ class Interp:
 
     def rows_by_name(self, st: ast.For):
         """for row in <decoded structured table>: .. row['field'] ..   ->   for f1, f2 in <table>: .. f1 ..   (fields in dtype order)"""
+        # for a, b in zip(table['f1'], table['f2']) with (f1, f2) all the fields of the table in order  ->  for a, b in table
+        zi = st.iter
+        if isinstance(zi, ast.Call) and norm(zi.func) == "zip" and zi.args and not zi.keywords and isinstance(st.target, ast.Tuple) \
+                and all(isinstance(a, ast.Subscript) and isinstance(a.slice, ast.Constant) and isinstance(a.slice.value, str) for a in zi.args) \
+                and len({norm(a.value) for a in zi.args}) == 1:
+            base = self.ev(zi.args[0].value)
+            fld0 = self.ph_field.get(base.id) if isinstance(base, ast.Name) else None
+            if fld0 is not None and fld0.dt.kind == "V" and [f[0] if isinstance(f, (tuple, list)) else f for f in fld0.dt.fields] == [a.slice.value for a in zi.args]:
+                return ast.copy_location(ast.For(target=st.target, iter=zi.args[0].value, body=st.body, orelse=[], type_comment=None), st)
         if not isinstance(st.target, ast.Name):
             return st
         it = self.ev(st.iter)
